@@ -996,6 +996,72 @@ fn config_cases(rng: &mut Rng, n: usize, w_dist: &mut Vec<String>) -> Vec<Spec> 
     v
 }
 
+/// Value-stack boundary sweep: a program runs under EVERY value-stack size 1..=max, so that each of its
+/// instructions that writes to the stack (pushes, local-variable writes past the top, the hidden locals of
+/// the loops, argument passing, frames of nested calls) executes at every distance from the end of the
+/// stack. Each run must end in Ok or an error value.
+fn sweep_programs() -> Vec<(&'static str, Module)> {
+    use vmgen::*;
+    let mk = |fns: Vec<(&str, Function)>| module(fns);
+    vec![
+        // a for-each over an empty and over a filled table in a callee that sits above the caller's locals
+        (
+            "sweep.foreach_in_callee",
+            mk(vec![
+                ("main", func(&[], vec![sv("a", int(1)), sv("b", int(2)), sv("c", int(3)), sv("t", array(vec![int(4), int(5)])), sv("r", call("looper", vec![rv("t")])), sg("done", rv("r"))])),
+                (
+                    "looper",
+                    func(&["t"], vec![sv("x", int(7)), sv("y", int(8)), foreach(Some("i"), Some("k"), Some("v"), table(), sv("z", rv("v"))), sv("acc", int(0)), foreach(Some("i"), Some("k"), Some("v"), rv("t"), sv("acc", add(rv("acc"), rv("v")))), ret(rv("acc"))]),
+                ),
+            ]),
+        ),
+        // repeat / while with locals declared in the body, in a chain of three calls
+        (
+            "sweep.loops_in_call_chain",
+            mk(vec![
+                ("main", func(&[], vec![sv("a", int(1)), sv("r", call("f1", vec![int(2), int(3)])), sg("done", rv("r"))])),
+                ("f1", func(&["p", "q"], vec![sv("m", int(0)), repeat(int(3), Some("i"), block(vec![sv("w", add(rv("i"), rv("p"))), sv("m", add(rv("m"), rv("w")))])), ret(call("f2", vec![rv("m")]))])),
+                ("f2", func(&["n"], vec![sv("c", int(0)), while_(less(rv("c"), int(2)), sv("c", add(rv("c"), int(1)))), ret(add(rv("n"), rv("c")))])),
+            ]),
+        ),
+        // closures capturing locals of a callee, tables, strings, dynamic calls
+        (
+            "sweep.closures_tables",
+            mk(vec![
+                ("main", func(&[], vec![sv("a", int(1)), sv("f", call("mk", vec![int(5)])), sv("r", dyn_call(rv("f"), vec![int(2)])), sv("t", table()), setp(rv("r"), rv("t"), s("k")), sg("done", getp(rv("t"), s("k")))])),
+                ("mk", func(&["p"], vec![sv("u", int(10)), ret(closure(&["x"], vec![sv("loc", add(rv("x"), rv("u"))), ret(add(rv("loc"), rv("p")))]))])),
+            ]),
+        ),
+    ]
+}
+
+fn sweep_cases(rng: &mut Rng, thorough: bool) -> Vec<Spec> {
+    let mut v = vec![];
+    let mut progs: Vec<(String, Module)> = sweep_programs().into_iter().map(|(n, m)| (n.to_string(), m)).collect();
+    // plus a rotating selection of the VM corpus
+    let corpus = vmgen::corpus();
+    let extra = if thorough { corpus.len() } else { 4 };
+    let start = rng.below(corpus.len() as u64) as usize;
+    for j in 0..extra {
+        let e = &corpus[(start + j * 5) % corpus.len()];
+        progs.push((format!("sweep.vmgen.{}", e.name), e.module.clone()));
+    }
+    let max = if thorough { 48 } else { 28 };
+    for (name, m) in progs {
+        let text = json_of(&m);
+        for stack in 1..=max {
+            v.push(Spec {
+                classes: vec!["sweep".into(), "sweep.stack".into(), name.clone()],
+                fmt: "json",
+                text: text.clone(),
+                limit: 64,
+                run: Some(RunCfg { mem: 400 * 1024, stack, calls: 64, budget: 5_000, twice: false }),
+            });
+        }
+    }
+    v
+}
+
 // ------------------------------------------------------------------------------------------------
 // driver entry
 // ------------------------------------------------------------------------------------------------
@@ -1013,6 +1079,7 @@ pub fn gen(a: &Args) {
     specs.extend(texts(&mut rng, rest / 2, thorough));
     let mut dummy = vec![];
     specs.extend(config_cases(&mut rng, rest - rest / 2, &mut dummy));
+    specs.extend(sweep_cases(&mut rng, thorough));
 
     let dir = a.out.join("inputs");
     let _ = std::fs::remove_dir_all(&dir);
